@@ -1,0 +1,6 @@
+//go:build !verif
+
+package reflect
+
+// vh is the instrumentation hook; without the `verif` build tag it is empty and inlined away.
+func vh(ev int, a, b, c uintptr) {}
